@@ -190,6 +190,11 @@ nlopt_result auglag_minimize(int n, nlopt_func f, void *f_data,
      do {
 	  double prev_ICM = ICM;
 	  
+	  /* the initial evaluation above may already have exhausted the limits,
+	     and a remaining budget <= 0 means "no limit" to nlopt_optimize_limited */
+	  if (nlopt_stop_evals(stop)) {ret = NLOPT_MAXEVAL_REACHED; break;}
+	  if (nlopt_stop_time(stop)) {ret = NLOPT_MAXTIME_REACHED; break;}
+
 	  ret = nlopt_optimize_limited(sub_opt, xcur, &fcur,
 				       stop->maxeval - *(stop->nevals_p),
 				       stop->maxtime - (nlopt_seconds() 
